@@ -133,3 +133,70 @@ package vm
 //@   ensures @C01 str.badop: op != code.OpLess && op != code.OpLessEqual && op != code.OpGreater && op != code.OpGreaterEqual && op != code.OpEqual && op != code.OpNotEqual && op != code.OpAdd && op != code.OpArrayIn ==> err != nil && stackSame(vm)
 //@   ensures str.valid: stackValid(vm)
 //@   panics never
+//@ func (vm *VM) executeBinaryOperation(op code.Opcode) (err error)
+//@   requires vmOK(vm) && stackValid(vm)
+//@   modifies vm.stack.entries, vm.stack.entries[*]
+//@   ensures @C01 bin.int.add: old(depth(vm)) >= 2 && isInt(T2(vm)) && isInt(T1(vm)) && op == code.OpAdd ==> err == nil && replaced2(vm) && topInt(vm, wrap64(old(ival(T2(vm))) + old(ival(T1(vm)))))
+//@   ensures @C01 bin.int.sub: old(depth(vm)) >= 2 && isInt(T2(vm)) && isInt(T1(vm)) && op == code.OpSub ==> err == nil && replaced2(vm) && topInt(vm, wrap64(old(ival(T2(vm))) - old(ival(T1(vm)))))
+//@   ensures @C01 bin.int.mul: old(depth(vm)) >= 2 && isInt(T2(vm)) && isInt(T1(vm)) && op == code.OpMul ==> err == nil && replaced2(vm) && topInt(vm, wrap64(old(ival(T2(vm))) * old(ival(T1(vm)))))
+//@   ensures @C01 bin.int.div: old(depth(vm)) >= 2 && isInt(T2(vm)) && isInt(T1(vm)) && op == code.OpDiv && old(ival(T1(vm))) != 0 ==> err == nil && replaced2(vm) && topInt(vm, wrap64(old(ival(T2(vm))) / old(ival(T1(vm)))))
+//@   ensures @C01 bin.int.div0: old(depth(vm)) >= 2 && isInt(T2(vm)) && isInt(T1(vm)) && op == code.OpDiv && old(ival(T1(vm))) == 0 ==> err != nil
+//@   ensures @C01 bin.int.mod: old(depth(vm)) >= 2 && isInt(T2(vm)) && isInt(T1(vm)) && op == code.OpMod && old(ival(T1(vm))) != 0 ==> err == nil && replaced2(vm) && topInt(vm, old(ival(T2(vm))) % old(ival(T1(vm))))
+//@   ensures @C01 @pinned bin.int.power: old(depth(vm)) >= 2 && isInt(T2(vm)) && isInt(T1(vm)) && op == code.OpPower ==> err == nil && replaced2(vm) && topInt(vm, f2i(pow(i2f(old(ival(T2(vm)))), i2f(old(ival(T1(vm)))))))
+//@   ensures @C01 bin.int.less: old(depth(vm)) >= 2 && isInt(T2(vm)) && isInt(T1(vm)) && op == code.OpLess ==> err == nil && replaced2(vm) && topBool(vm, old(ival(T2(vm))) < old(ival(T1(vm))))
+//@   ensures @C01 bin.int.lessequal: old(depth(vm)) >= 2 && isInt(T2(vm)) && isInt(T1(vm)) && op == code.OpLessEqual ==> err == nil && replaced2(vm) && topBool(vm, old(ival(T2(vm))) <= old(ival(T1(vm))))
+//@   ensures @C01 bin.int.greater: old(depth(vm)) >= 2 && isInt(T2(vm)) && isInt(T1(vm)) && op == code.OpGreater ==> err == nil && replaced2(vm) && topBool(vm, old(ival(T2(vm))) > old(ival(T1(vm))))
+//@   ensures @C01 bin.int.greaterequal: old(depth(vm)) >= 2 && isInt(T2(vm)) && isInt(T1(vm)) && op == code.OpGreaterEqual ==> err == nil && replaced2(vm) && topBool(vm, old(ival(T2(vm))) >= old(ival(T1(vm))))
+//@   ensures @C01 bin.int.equal: old(depth(vm)) >= 2 && isInt(T2(vm)) && isInt(T1(vm)) && op == code.OpEqual ==> err == nil && replaced2(vm) && topBool(vm, old(ival(T2(vm))) == old(ival(T1(vm))))
+//@   ensures @C01 bin.int.notequal: old(depth(vm)) >= 2 && isInt(T2(vm)) && isInt(T1(vm)) && op == code.OpNotEqual ==> err == nil && replaced2(vm) && topBool(vm, old(ival(T2(vm))) != old(ival(T1(vm))))
+//@   ensures @C01 bin.float.add: old(depth(vm)) >= 2 && isNum(T2(vm)) && isNum(T1(vm)) && !(isInt(T2(vm)) && isInt(T1(vm))) && op == code.OpAdd ==> err == nil && replaced2(vm) && topFloat(vm, old(fl(T2(vm))) + old(fl(T1(vm))))
+//@   ensures @C01 bin.float.sub: old(depth(vm)) >= 2 && isNum(T2(vm)) && isNum(T1(vm)) && !(isInt(T2(vm)) && isInt(T1(vm))) && op == code.OpSub ==> err == nil && replaced2(vm) && topFloat(vm, old(fl(T2(vm))) - old(fl(T1(vm))))
+//@   ensures @C01 bin.float.mul: old(depth(vm)) >= 2 && isNum(T2(vm)) && isNum(T1(vm)) && !(isInt(T2(vm)) && isInt(T1(vm))) && op == code.OpMul ==> err == nil && replaced2(vm) && topFloat(vm, old(fl(T2(vm))) * old(fl(T1(vm))))
+//@   ensures @C01 bin.float.div: old(depth(vm)) >= 2 && isNum(T2(vm)) && isNum(T1(vm)) && !(isInt(T2(vm)) && isInt(T1(vm))) && op == code.OpDiv && !fzero(old(fl(T1(vm)))) ==> err == nil && replaced2(vm) && topFloat(vm, old(fl(T2(vm))) / old(fl(T1(vm))))
+//@   ensures @C01 bin.float.div0: old(depth(vm)) >= 2 && isNum(T2(vm)) && isNum(T1(vm)) && !(isInt(T2(vm)) && isInt(T1(vm))) && op == code.OpDiv && fzero(old(fl(T1(vm)))) ==> err != nil
+//@   ensures @C01 @pinned bin.float.mod: old(depth(vm)) >= 2 && isNum(T2(vm)) && isNum(T1(vm)) && !(isInt(T2(vm)) && isInt(T1(vm))) && op == code.OpMod && f2i(old(fl(T1(vm)))) != 0 ==> err == nil && replaced2(vm) && topFloat(vm, i2f(f2i(old(fl(T2(vm)))) % f2i(old(fl(T1(vm))))))
+//@   ensures @C01 @pinned bin.float.power: old(depth(vm)) >= 2 && isNum(T2(vm)) && isNum(T1(vm)) && !(isInt(T2(vm)) && isInt(T1(vm))) && op == code.OpPower ==> err == nil && replaced2(vm) && topFloat(vm, pow(old(fl(T2(vm))), old(fl(T1(vm)))))
+//@   ensures @C01 bin.float.less: old(depth(vm)) >= 2 && isNum(T2(vm)) && isNum(T1(vm)) && !(isInt(T2(vm)) && isInt(T1(vm))) && op == code.OpLess ==> err == nil && replaced2(vm) && topBool(vm, old(fl(T2(vm))) < old(fl(T1(vm))))
+//@   ensures @C01 bin.float.lessequal: old(depth(vm)) >= 2 && isNum(T2(vm)) && isNum(T1(vm)) && !(isInt(T2(vm)) && isInt(T1(vm))) && op == code.OpLessEqual ==> err == nil && replaced2(vm) && topBool(vm, old(fl(T2(vm))) <= old(fl(T1(vm))))
+//@   ensures @C01 bin.float.greater: old(depth(vm)) >= 2 && isNum(T2(vm)) && isNum(T1(vm)) && !(isInt(T2(vm)) && isInt(T1(vm))) && op == code.OpGreater ==> err == nil && replaced2(vm) && topBool(vm, old(fl(T2(vm))) > old(fl(T1(vm))))
+//@   ensures @C01 bin.float.greaterequal: old(depth(vm)) >= 2 && isNum(T2(vm)) && isNum(T1(vm)) && !(isInt(T2(vm)) && isInt(T1(vm))) && op == code.OpGreaterEqual ==> err == nil && replaced2(vm) && topBool(vm, old(fl(T2(vm))) >= old(fl(T1(vm))))
+//@   ensures @C01 bin.float.equal: old(depth(vm)) >= 2 && isNum(T2(vm)) && isNum(T1(vm)) && !(isInt(T2(vm)) && isInt(T1(vm))) && op == code.OpEqual ==> err == nil && replaced2(vm) && topBool(vm, old(fl(T2(vm))) == old(fl(T1(vm))))
+//@   ensures @C01 bin.float.notequal: old(depth(vm)) >= 2 && isNum(T2(vm)) && isNum(T1(vm)) && !(isInt(T2(vm)) && isInt(T1(vm))) && op == code.OpNotEqual ==> err == nil && replaced2(vm) && topBool(vm, old(fl(T2(vm))) != old(fl(T1(vm))))
+//@   ensures @C01 bin.num.badop: old(depth(vm)) >= 2 && isNum(T2(vm)) && isNum(T1(vm)) && (op == code.OpMatches || op == code.OpNotMatches || op == code.OpArrayIn) ==> err != nil
+//@   ensures @C01 bin.str.less: old(depth(vm)) >= 2 && isStr(T2(vm)) && isStr(T1(vm)) && op == code.OpLess ==> err == nil && replaced2(vm) && topBool(vm, old(sval(T2(vm))) < old(sval(T1(vm))))
+//@   ensures @C01 bin.str.lessequal: old(depth(vm)) >= 2 && isStr(T2(vm)) && isStr(T1(vm)) && op == code.OpLessEqual ==> err == nil && replaced2(vm) && topBool(vm, old(sval(T2(vm))) <= old(sval(T1(vm))))
+//@   ensures @C01 bin.str.greater: old(depth(vm)) >= 2 && isStr(T2(vm)) && isStr(T1(vm)) && op == code.OpGreater ==> err == nil && replaced2(vm) && topBool(vm, old(sval(T2(vm))) > old(sval(T1(vm))))
+//@   ensures @C01 bin.str.greaterequal: old(depth(vm)) >= 2 && isStr(T2(vm)) && isStr(T1(vm)) && op == code.OpGreaterEqual ==> err == nil && replaced2(vm) && topBool(vm, old(sval(T2(vm))) >= old(sval(T1(vm))))
+//@   ensures @C01 bin.str.equal: old(depth(vm)) >= 2 && isStr(T2(vm)) && isStr(T1(vm)) && op == code.OpEqual ==> err == nil && replaced2(vm) && topBool(vm, old(sval(T2(vm))) == old(sval(T1(vm))))
+//@   ensures @C01 bin.str.notequal: old(depth(vm)) >= 2 && isStr(T2(vm)) && isStr(T1(vm)) && op == code.OpNotEqual ==> err == nil && replaced2(vm) && topBool(vm, old(sval(T2(vm))) != old(sval(T1(vm))))
+//@   ensures @C01 bin.str.add: old(depth(vm)) >= 2 && isStr(T2(vm)) && isStr(T1(vm)) && op == code.OpAdd ==> err == nil && replaced2(vm) && topStr(vm, old(sval(T2(vm))) + old(sval(T1(vm))))
+//@   ensures @C01 @C16 bin.str.in: old(depth(vm)) >= 2 && isStr(T2(vm)) && isStr(T1(vm)) && op == code.OpArrayIn ==> err == nil && replaced2(vm) && topBool(vm, strContains(old(sval(T1(vm))), old(sval(T2(vm)))))
+//@   ensures @C01 bin.str.badop: old(depth(vm)) >= 2 && isStr(T2(vm)) && isStr(T1(vm)) && (op == code.OpSub || op == code.OpMul || op == code.OpDiv || op == code.OpMod || op == code.OpPower || op == code.OpMatches || op == code.OpNotMatches) ==> err != nil
+//@   ensures @C01 bin.match.type: old(depth(vm)) >= 2 && isStr(T2(vm)) && isRegexp(T1(vm)) && (op == code.OpMatches || op == code.OpNotMatches) && err == nil ==> replaced2(vm) && isBool(top(vm))
+//@   ensures @C01 bin.match.badop: old(depth(vm)) >= 2 && isStr(T2(vm)) && isRegexp(T1(vm)) && op != code.OpMatches && op != code.OpNotMatches && op != code.OpAnd && op != code.OpOr && op != code.OpArrayIn ==> err != nil
+//@   ensures @C01 bin.bool.equal: old(depth(vm)) >= 2 && isBool(T2(vm)) && isBool(T1(vm)) && op == code.OpEqual ==> err == nil && replaced2(vm) && topBool(vm, old(bval(T2(vm))) == old(bval(T1(vm))))
+//@   ensures @C01 bin.bool.notequal: old(depth(vm)) >= 2 && isBool(T2(vm)) && isBool(T1(vm)) && op == code.OpNotEqual ==> err == nil && replaced2(vm) && topBool(vm, old(bval(T2(vm))) != old(bval(T1(vm))))
+//@   ensures @C01 @C05 bin.and: old(depth(vm)) >= 2 && op == code.OpAnd ==> err == nil && replaced2(vm) && topBool(vm, old(truthy(T2(vm))) && old(truthy(T1(vm))))
+//@   ensures @C01 @C05 bin.or: old(depth(vm)) >= 2 && op == code.OpOr ==> err == nil && replaced2(vm) && topBool(vm, old(truthy(T2(vm))) || old(truthy(T1(vm))))
+//@   ensures @C01 @C16 bin.in.notarray: old(depth(vm)) >= 2 && op == code.OpArrayIn && !isArray(T1(vm)) && !(isStr(T2(vm)) && isStr(T1(vm))) ==> err != nil
+//@   ensures @C01 bin.mismatch: old(depth(vm)) >= 2 && tag(T2(vm)) != tag(T1(vm)) && !(isNum(T2(vm)) && isNum(T1(vm))) && !(isStr(T2(vm)) && isRegexp(T1(vm))) && op != code.OpAnd && op != code.OpOr && op != code.OpArrayIn ==> err != nil
+//@   ensures @C01 bin.nonnum: old(depth(vm)) >= 2 && tag(T2(vm)) == tag(T1(vm)) && !isNum(T2(vm)) && !isStr(T2(vm)) && !isBool(T2(vm)) && op != code.OpAnd && op != code.OpOr && op != code.OpArrayIn && op != code.OpEqual && op != code.OpNotEqual ==> err != nil
+//@   ensures @C18 bin.underflow: old(depth(vm)) < 2 ==> err != nil
+//@   ensures bin.valid: stackValid(vm)
+//@   panics when depth(vm) >= 2 && ((isNum(TT2(vm)) && isNum(TT1(vm)) && op == code.OpMod && true && (isInt(TT2(vm)) && isInt(TT1(vm)) ? ival(TT1(vm)) == 0 : f2i(fl(TT1(vm))) == 0)) || (isStr(TT2(vm)) && isRegexp(TT1(vm)) && op != code.OpAnd && op != code.OpOr) || (op == code.OpArrayIn && isArray(TT1(vm)) && true && !(isNum(TT2(vm)) && isNum(TT1(vm))) && !(isStr(TT2(vm)) && isStr(TT1(vm)))))
+
+//@ func (vm *VM) evalBooleanInfixExpression(op code.Opcode, left object.Object, right object.Object) (err error)
+//@   requires vmOK(vm) && stackValid(vm) && isBool(left) && isBool(right) && ptr(left) != 0 && ptr(right) != 0
+//@   modifies vm.stack.entries, vm.stack.entries[*]
+//@   ensures @C01 bool.equal: op == code.OpEqual ==> err == nil && pushed1(vm) && topBool(vm, old(bval(left)) == old(bval(right)))
+//@   ensures @C01 bool.notequal: op == code.OpNotEqual ==> err == nil && pushed1(vm) && topBool(vm, old(bval(left)) != old(bval(right)))
+//@   ensures bool.valid: stackValid(vm)
+//@   panics never
+
+//@ func (vm *VM) evalStringRegexpExpression(op code.Opcode, left object.Object, right object.Object) (err error)
+//@   requires vmOK(vm) && stackValid(vm) && isStr(left) && isRegexp(right) && ptr(left) != 0 && ptr(right) != 0
+//@   modifies vm.stack.entries, vm.stack.entries[*]
+//@   ensures @C01 sr.type: (op == code.OpMatches || op == code.OpNotMatches) && err == nil ==> pushed1(vm) && isBool(top(vm)) && ptr(top(vm)) != 0
+//@   ensures @C01 sr.badop: op != code.OpMatches && op != code.OpNotMatches ==> err != nil && stackSame(vm)
+//@   ensures sr.valid: stackValid(vm)
+//@   panics maybe
